@@ -35,6 +35,8 @@ def _worker(job):
     prop, idx, case, tier, seed = job
     mod, units = load_units(prop)
     units = [u for u in units if not getattr(u, 'tiers', None) or tier in u.tiers]
+    if os.environ.get('VERIF_ONLY'):
+        units = [u for u in units if os.environ['VERIF_ONLY'] in u.uid]
     u = units[idx]
     registry = {x.name: x for x in units if isinstance(x, C.Contract)}
     return run_unit(u, tier, seed, registry, case)
@@ -86,6 +88,9 @@ def main(argv):
     t0 = time.time()
     mod, units = load_units(prop)
     units = [u for u in units if not getattr(u, 'tiers', None) or tier in u.tiers]
+    only = os.environ.get('VERIF_ONLY')          # debugging aid: run the units whose id contains this text (never registered)
+    if only:
+        units = [u for u in units if only in u.uid]
     jobs = []
     for i, u in enumerate(units):
         if isinstance(u, C.Contract) and len(u.cases) > 1:
